@@ -7,7 +7,7 @@ use crate::rng::Rng;
 use crate::runner::*;
 use serde_json::{json, Value};
 
-pub const RULE: &str = "cases = (range text rendered from a generated AST) judged on a boundary-directed probe set of versions (≈30 per bound of model and crate) against the documented npm desugaring of the AST; strata: D directed literals, E1 every operator x partial shape x numbers {0,1,2} (exhaustive), E3 every hyphen shape pair (exhaustive), E2 pairs of E1 comparators as `a b` and `a || b`, R seeded random ASTs with loose spellings and garbage tokens, LL long `||` lists of 17..300 alternatives (pins observable only through their own alternative), B components at MAX_SAFE_INTEGER; a case is non-trivial when its probe set contains both admitted and rejected versions; distinct = distinct range texts";
+pub const RULE: &str = "cases = (range text rendered from a generated AST) judged on a boundary-directed probe set of versions (≈30 per bound of model and crate) against the documented npm desugaring of the AST; strata: D directed literals, E1 every operator x partial shape x numbers {0,1,2} (exhaustive), E3 every hyphen shape pair (exhaustive), E2 pairs of E1 comparators as `a b` and `a || b`, R seeded random ASTs with loose spellings and garbage tokens, LL long `||` lists of 17..300 alternatives (pins observable only through their own alternative), LS one alternative of 17..70 nested comparators in any order, B components at MAX_SAFE_INTEGER; a case is non-trivial when its probe set contains both admitted and rejected versions; distinct = distinct range texts";
 
 fn witness(ast: &RangeAst, sp: &Spelling, text: &str, m: &Mismatch) -> Value {
     json!({"kind": "range-version", "range": text, "plain": ast.plain_text(), "spelling": sp.describe(), "version": m.version.as_ref().map(|v| v.text()), "dir": m.dir})
@@ -242,6 +242,39 @@ pub fn run(ctx: &mut Ctx) {
             }
             let ast = RangeAst { alts };
             judge_ast(ctx, &ast, &plain, &format!("long-or:{}", if n > 256 { ">256" } else if n > 64 { "65..256" } else if n > 32 { "33..64" } else { "17..32" }));
+        }
+    }
+    // LS long comparator sets: one alternative of 17..70 space-joined comparators, nested so
+    // that the conjunction stays satisfiable, in any order, some of them tagged
+    ctx.stratum("LS-long-comparator-sets", false);
+    let ns = ctx.tier.n(20, 800);
+    for i in 0..ns {
+        if ctx.take() {
+            let mut r = Rng::for_case(ctx.seed, "C01-LS", i);
+            let k = *r.pick(&[17usize, 18, 33, 34, 65, 70]);
+            let mut toks = vec![];
+            for j in 0..k as u64 {
+                let (op, mut v) = match r.below(4) {
+                    0 => (Op::Ge, MV::new(1, 0, j)),
+                    1 => (Op::Gt, MV::new(1, 0, j)),
+                    2 => (Op::Lt, MV::new(3, 0, 200 - j)),
+                    _ => (Op::Le, MV::new(3, 0, 200 - j)),
+                };
+                if r.chance(1, 5) {
+                    v.pre = vec!["rc".into(), (j % 3).to_string()];
+                }
+                toks.push(Tok::Cmp(op, Partial::full(&v)));
+            }
+            match r.below(3) {
+                0 => {}
+                1 => toks.reverse(),
+                _ => r.shuffle(&mut toks),
+            }
+            let mut alts = vec![Alt::Set(toks)];
+            if r.chance(1, 3) {
+                alts.push(Alt::Set(vec![Tok::Cmp(Op::Tilde, Partial::full(&MV::new(9, 1, 2)))]));
+            }
+            judge_ast(ctx, &RangeAst { alts }, &plain, &format!("long-set:{}", if k > 64 { ">64" } else if k > 32 { "33..64" } else { "17..32" }));
         }
     }
     // B big numbers: every operator x shape with MAX_SAFE / MAX_SAFE-1 components
